@@ -3,6 +3,7 @@
 package sim
 
 import (
+	"os/exec"
 	"context"
 	"fmt"
 	"os"
@@ -34,6 +35,7 @@ type c17run struct {
 	syncPids []int
 	consult  []string
 	returned bool
+	blocked  string // the callback's own work did not get done while the launch stood at its gate
 }
 
 func c17Run(c *vcore.Ctx) *vcore.Violation {
@@ -100,6 +102,13 @@ func c17Run(c *vcore.Ctx) *vcore.Violation {
 	if noise {
 		rounds = 8 // keep the healthy runs going while the failing launches run next to them
 	}
+	// callbacks that do work of their own while the launch stands at its gate - start a helper process, as a
+	// callback that attaches the program to something may: nothing a launch holds may be needed for that
+	callbacksWork := src.Bool(1, 2, "callbacks_work")
+	if callbacksWork {
+		c.Event("callbacks_work")
+		c.Fault("callback_starts_a_process")
+	}
 	var wg sync.WaitGroup
 	start := make(chan struct{})
 	for _, r := range runs {
@@ -116,6 +125,17 @@ func c17Run(c *vcore.Ctx) *vcore.Violation {
 				}
 				allSync[pid] = r.id
 				pidMu.Unlock()
+				if callbacksWork && r.kind != "ptrace" {
+					done := make(chan error, 1)
+					go func() { done <- exec.Command("/bin/true").Run() }()
+					select {
+					case <-done:
+					case <-time.After(20 * time.Second):
+						pidMu.Lock()
+						r.blocked = "a helper process started by the callback had not been started and reaped after 20 s"
+						pidMu.Unlock()
+					}
+				}
 				return nil
 			}
 			marker := fmt.Sprintf("%s/c17-marker-%d", c.Dir, r.id)
@@ -236,6 +256,9 @@ func c17Run(c *vcore.Ctx) *vcore.Violation {
 	}
 	for _, r := range runs {
 		site := strings.TrimRight(r.kind, "0123456789")
+		if r.blocked != "" {
+			return vcore.Violate(prop, "callback_blocked", site, "run %d (%s) in a batch of %d: %s - the launch holds something process-wide while it waits at its gate", r.id, r.kind, n, r.blocked)
+		}
 		wantS, wantE := runner.StatusNonzeroExitStatus, r.code
 		if r.verdict == "kill" {
 			wantS, wantE = runner.StatusDisallowedSyscall, r.res.ExitStatus
